@@ -84,12 +84,6 @@ Section Cor.
       rewrite Q by lia. f_equal; lia.
     Qed.
 
-    (* no larger block symmetric about the origin fits into the axis *)
-    Lemma valid_region_maximal (d' : Z) :
-      (0 <= o0 - d')%Z -> (o0 + d' <= Z.of_nat n - 1)%Z ->
-      (2 * d' + 1 <= Z.of_nat (crop_len ValidRegion n o0))%Z.
-    Proof. unfold crop_len. lia. Qed.
-
     (* 'maintain_data': every original pixel is kept (at its translated
        position), everything else is zero, the padding makes the frame
        symmetric about the origin pixel *)
@@ -174,3 +168,20 @@ Section Cor.
     exists out. split; [exact E|]. split; [exact W|]. exact P.
   Qed.
 End Cor.
+
+(* no larger block symmetric about the origin fits into the axis *)
+Lemma valid_region_maximal (n : nat) (o d' : Z) :
+  (0 <= o - d')%Z -> (o + d' <= Z.of_nat n - 1)%Z ->
+  (2 * d' + 1 <= Z.of_nat (crop_len ValidRegion n o))%Z.
+Proof. unfold crop_len. lia. Qed.
+
+Lemma c12_example :
+  wf 2 3 [[1; 2; 3]; [4; 5; 6]] /\ in_axis 2 (Some 1%Z) /\ in_axis 3 None /\
+  set_center_int 0 [[1; 2; 3]; [4; 5; 6]] (Some 0%Z) (Some 2%Z) MaintainSize = Some [[0; 0; 0]; [2; 3; 0]].
+Proof.
+  split; [|split; [|split]].
+  - apply wfb_wf. reflexivity.
+  - cbn. lia.
+  - exact I.
+  - reflexivity.
+Qed.
